@@ -49,6 +49,15 @@ P = {
 # C03 (termination, no crash) used to keep only the safety/termination/precondition obligations; rounds 5 and 6 of the seeded
 # changes showed that the functional clauses are what the safety obligations of the callers rest on (a command whose fsm
 # was never built, a version option that is nil): C03 now takes every obligation of its cone like the others.
+# DEEP: the groups a property is stated on. In the thorough tier their obligations get the long budgets and every back end
+# on every path; the rest of the cone is decided as in the quick tier (the same obligations are the deep ones of the
+# property they belong to, so across the twenty thorough checks everything gets the thorough treatment at least once).
+DEEP = {
+ 'C01': 'PARSE MATCH FSM', 'C02': 'MATCH FSM FILL', 'C03': 'LEX PARSE MATCH FSM', 'C04': 'ROUTE INIT', 'C05': 'FLOW ROUTE',
+ 'C06': 'VSET VENV DECL', 'C07': 'ROUTE FLOW', 'C08': 'LEX PARSE INIT', 'C09': 'MATCH FSM LEX', 'C10': 'MATCH', 'C11': 'MATCH FSM',
+ 'C12': 'MATCH VENV FSM', 'C13': 'VSET FILL', 'C14': 'ROUTE HELP', 'C15': 'FILL MATCH', 'C16': 'INIT DECL', 'C17': 'HELP VTEXT',
+ 'C18': 'DECL LEX', 'C19': 'VSET FILL MATCH', 'C20': 'SWEEP INIT DECL',
+}
 m = json.load(open('/verif/obligations.map.json'))
 for pid, groups in P.items():
     fs = []
@@ -59,5 +68,6 @@ for pid, groups in P.items():
     ex = [] if pid == 'C06' else [r'.*default-kept-on-failure.*']
     m[pid]['exclude'] = ex
     m[pid]['groups'] = groups
+    m[pid]['deep'] = sum((G[g] for g in (DEEP[pid] + ' SWEEP').split()), [])
 json.dump(m, open('/verif/obligations.map.json', 'w'), indent=1)
 print('ok')
